@@ -26,10 +26,11 @@ const (
 	LTrvAB         // this.related.a.traverse(x => x.related.b.includes(ctx.subject))
 	LPermQ         // this.permits.q(ctx)   with q = includes b
 	LTrvBA         // this.related.b.traverse(x => x.related.a.includes(ctx.subject))
+	LPermP         // this.permits.p(ctx)   (the permission refers to itself)
 	NLeaf
 )
 
-var leafName = []string{"inc(a)", "inc(b)", "trv(a>p)", "trv(a>b)", "permits(q)", "trv(b>a)"}
+var leafName = []string{"inc(a)", "inc(b)", "trv(a>p)", "trv(a>b)", "permits(q)", "trv(b>a)", "permits(p)"}
 
 func (e *Expr) String() string {
 	switch e.Op {
@@ -88,7 +89,7 @@ func (e *Expr) usesLeaf(l int) bool {
 func (e *Expr) recNeg(neg bool) bool {
 	switch e.Op {
 	case "leaf":
-		return neg && e.Leaf == LTrvAP
+		return neg && (e.Leaf == LTrvAP || e.Leaf == LPermP)
 	case "not":
 		return e.Kids[0].recNeg(true)
 	}
@@ -143,6 +144,8 @@ func (e *Expr) child() ast.Child {
 			return &ast.ComputedSubjectSet{Relation: "q"}
 		case LTrvBA:
 			return &ast.TupleToSubjectSet{Relation: "b", ComputedSubjectSetRelation: "a"}
+		case LPermP:
+			return &ast.ComputedSubjectSet{Relation: "p"}
 		}
 	case "not":
 		return &ast.InvertResult{Child: e.Kids[0].child()}
